@@ -119,7 +119,8 @@ CHECKS = {
          "order, passthrough on/off) the map covers every resource with one node each, every tool's subgraph is the flow "
          "of its expression fed by its producers (own source nodes with passthrough off), inputs/outputs marked, and with "
          "passthrough on the graph is the flow of the inlined expression (C12_plugged, C12_inline); C12_handon_plugged "
-         "extends this to tools that hand an input on (`1`, `1: T`; resources share a node exactly along hand-on chains) - "
+         "extends this to tools that hand an input on (`1`, `1: T`; resources share a node exactly along hand-on chains), "
+         "C12_handon_inline does the same for C12_inline - "
          "proving it exposed two KeyErrors of add_workflow, repaired in 5e78fd2/1f88f3e and refuted for the pinned model; source_types "
          "order-independent and = the Sub-least annotation (C12_source_types_perm/spec); typed half (node types vs the "
          "inlined expression, WorkflowDict vs WorkflowGraph, every listing order) is implementation-vs-implementation "
@@ -150,7 +151,10 @@ CHECKS = {
  "C18": ("schedules proved to only permute the pending constraints (C18_permute); the property itself is REFUTED on "
          "the faithful model and on the code for the error kind (C18_refuted) and for the result when elimination "
          "constraints interact (C18_refuted_result) - two known findings, a third instance (match on bounded "
-         "variables) was repaired; where it is true it is proved: C18_pure_checks_partial - for programs whose "
+         "variables) was repaired; for the base-alternative class progE: C18_elim_kind_refuted / C18_elim_ref_refuted "
+         "(error kind and the raw reference field still depend on the order) and C18_elim_round(_fuel) (one complete "
+         "re-check round, nested rounds included, is order-independent on cells, constraint sets, alternatives and "
+         "fulfilled flags from any store satisfying RoundPre); where it is true it is proved: C18_pure_checks_partial - for programs whose "
          "constraints are subtype constraints of a variable against a base type, any two schedules give the same "
          "success/failure, failing command, values and store (error kinds equal up to TypeMismatch/ConstraintViolation); for every generated program all permutations at every re-check point are imposed on "
          "/repo through the guarded hook and on the model, which must agree per schedule on the full store; divergences "
